@@ -198,11 +198,6 @@ def main(run: core.Run) -> None:
         nb, nr = 4, 3
     run.run_cases(run_case, items, 'read sweep', chunk=50)
     for label, n, clauses in (('claim-call BFS (text oracle)', nb, {'text'}), ('claim-call BFS (text + read sweep)', nr, {'text', 'reads'})):
-        bfs_cases = []
-        for t in docs.texts(docs.L_COMMENT, n, nmin=1, variants=(('lf', True),)):
-            for mode in (True, False):
-                root = docs.try_parse(t, M.File, mode)
-                if root is not None and any(isinstance(x, M.BlockComment) for x in root.token_store):
-                    bfs_cases.append({'text': t, 'mode': mode})
+        bfs_cases = claims.bfs_corpus(n, with_txn4=(tier == 'quick' and 'reads' not in clauses))
         claims.claims_bfs(run, bfs_cases, clauses, label)
     run.bounds.update({'read_sweep_max_lines': 2 if tier == 'quick' else 3, 'bfs_max_lines': nb, 'bfs_with_reads_max_lines': nr})
